@@ -160,6 +160,28 @@ func (rw *rewriter) file(f *ast.File) {
 			fail("%s already imports the simulator", rw.fname)
 		}
 	}
+	// R7: functions handed to context.AfterFunc / time.AfterFunc run in a
+	// goroutine the runtime starts: adopt it as a simulated task.
+	ast.Inspect(f, func(n ast.Node) bool {
+		call, ok := n.(*ast.CallExpr)
+		if !ok || len(call.Args) != 2 {
+			return true
+		}
+		sel, ok := ast.Unparen(call.Fun).(*ast.SelectorExpr)
+		if !ok {
+			return true
+		}
+		fn, ok := rw.info.Uses[sel.Sel].(*types.Func)
+		if !ok || fn.Pkg() == nil || fn.Name() != "AfterFunc" || (fn.Pkg().Path() != "context" && fn.Pkg().Path() != "time") {
+			return true
+		}
+		rw.used = true
+		call.Args[1] = &ast.CallExpr{
+			Fun:  &ast.SelectorExpr{X: ast.NewIdent(simAlias), Sel: ast.NewIdent("Adopted")},
+			Args: []ast.Expr{&ast.BasicLit{Kind: token.STRING, Value: strconv.Quote(rw.site(call.Pos(), "afterfunc"))}, call.Args[1]},
+		}
+		return true
+	})
 	for _, d := range f.Decls {
 		switch d := d.(type) {
 		case *ast.FuncDecl:
